@@ -40,6 +40,7 @@ type Val struct {
 	Fn   *ssa.Function
 	Bind []Val
 	G    *ssa.Global
+	Box  *Val // for interface values built by MakeInterface: the boxed value
 }
 
 func term(t string, s Sort, typ types.Type) Val { return Val{K: KTerm, T: t, S: s, Typ: typ} }
